@@ -12,7 +12,9 @@ ALL="C01 C02 C03 C04 C05 C06 C07 C08 C10 C11 C12 C13 C14 C15 C16 C17 C18 C19 C20
 CROSS=${*:-$ALL}
 base=/tmp/mx
 rm -rf $base; mkdir -p $base
-seeds=( $(ls -d /verif/seeded/*/ | xargs -n1 basename) )
+# SEED_PAT restricts the run to matching seed names (e.g. '*_r4_*'); rows of
+# other seeds in RESULTS.tsv are kept
+seeds=( $(ls -d /verif/seeded/${SEED_PAT:-*}/ | xargs -n1 basename) )
 worker() {
   w=$1; d=$base/w$w
   git -C /repo worktree add -q --detach $d/repo HEAD || exit 2
@@ -43,5 +45,12 @@ worker() {
 }
 for w in $(seq 0 $((W-1))); do worker $w & done
 wait
-cat $base/out.* | sort > /verif/seeded/RESULTS.tsv
+cat $base/out.* | sort > $base/new.tsv
+if [ -n "$SEED_PAT" ] && [ -f /verif/seeded/RESULTS.tsv ]; then
+  cut -f1 $base/new.tsv > $base/new.ids
+  grep -v -F -w -f $base/new.ids /verif/seeded/RESULTS.tsv > $base/old.tsv
+  cat $base/old.tsv $base/new.tsv | sort > /verif/seeded/RESULTS.tsv
+else
+  cp $base/new.tsv /verif/seeded/RESULTS.tsv
+fi
 rm -rf $base
